@@ -122,6 +122,25 @@ def gen(rng, tier):
         d["server_dies_ms"] = ms
         d["midi_stream"] = True
         scenarios.append({"devices": [d], "tag": "corpus-server-dies"})
+    # corpus: a device that stays connected for 11.5 s (thorough: also 31 s and 61 s) with sparse events: whatever is driven by UPTIME
+    # (periodic timers, counters of refresh cycles) gets a chance to act; output, return time and leftovers are judged as always
+    for secs in ((11,) if tier == "quick" else (11, 31, 61)):
+        d = gen_device(rng, "led")
+        base = [e for e in d["events"] if not (e["t"] == "k" and e["val"] == 2 and e["code"] == 0)]
+        ev = []
+        for sidx in range(secs):
+            ev.append({"t": "k", "sub": "verif-pause-1s", "code": 0, "val": 2})
+            ev += base[sidx % max(1, len(base)):][:2] if base else []
+        # keep per-key alternation: replay the base history in order instead of slices
+        ev = []
+        per = max(1, len(base) // max(1, secs))
+        for sidx in range(secs):
+            ev.append({"t": "k", "sub": "verif-pause-1s", "code": 0, "val": 2})
+            ev += base[sidx * per:(sidx + 1) * per]
+        ev += base[secs * per:] + [{"t": "k", "sub": "verif-pause-1s", "code": 0, "val": 2}]
+        d["events"] = ev
+        d["midi_stream"] = False
+        scenarios.append({"devices": [d], "tag": "corpus-aged-%ds" % secs})
     # corpus: the stale-release path - a note key held across a switch to a mapping in which that key is not a note, released there
     # (its Note Off is found through the note tracker, outside the normal note/action dispatch), with the LED loop running
     for _ in range(3 if tier == "quick" else 40):
